@@ -351,7 +351,7 @@ def build(cfg, world=None, error_handler='reraise', stage_hook=None):
                 for j, mw in enumerate(sib['mws']):
                     smws.append(make_mw(w, 'S%d.m%d' % (k, j), mw))
                 sep = make_function(w, 'S%d.ep' % k, [], 'func', False, {'kind': 'ep', 'returns': 'response'})
-                sroute = Route('/sib%d' % k, sep, middlewares=smws)
+                sroute = Route('/sib%d' % k + ''.join('/<%s>' % u for u in sib.get('url') or []), sep, middlewares=smws)
                 (before if sib['pos'] == 'before' else after).append(sroute)
             if i == 0 and cfg.get('decoy') and (rt.get('url') or []):
                 # a route bound *before* the one under test that matches the same paths but not the method: it is
@@ -541,6 +541,22 @@ def is_cyclic(mws, ep_sig):
         color[u] = 2
         return False
     return any(color.get(u) is None and dfs(u) for u in list(g))
+
+
+def sibling_for(cfg):
+    """a valid sibling route (bound before the entry under test, innermost application) whose own middleware requires the
+    sibling's URL binding and provides a name nobody else offers: it must not change whether the entry under test is accepted"""
+    offered = set(RESERVED)
+    for lv in cfg['levels']:
+        offered |= set(lv.get('res') or [])
+    offered |= set(cfg['route'].get('res') or []) | set(cfg['route'].get('url') or [])
+    for mw in all_mws(cfg):
+        for _, pl in PHASES:
+            offered |= set(mw.get(pl) or ())
+    free = [n for n in ('a', 'b', 'c', 'd', 'e') if n not in offered]
+    mw = {'tid': 5, 'unique': False, 'reorderable': True, 'style': 'func', 'provides': free[:1], 'endpoint_provides': [], 'render_provides': [],
+          'request': [['zq_sx', 'pos', False]], 'endpoint': None, 'render': None}
+    return {'level': len(cfg['levels']) - 1, 'pos': 'before', 'url': ['zq_sx'], 'mws': [mw]}
 
 
 def has_posonly(cfg):
